@@ -133,13 +133,15 @@ CLAIMED.update({
         note='the end-to-end totality theorem is not proved (partial): decided per input by model/implementation agreement plus the exception-class oracle.',
         technique='Coq parser model with explicit exceptions + regex capture/progress lemmas + differential on a malformed stream'),
     'C07': dict(cat='proof', design='DESIGN.md §7 C07',
-        text='Theorems: single-ended expressions have at most one end; if every repetition body is single-ended the number of ends '
-             '(with multiplicity: the size of the backtracking search) is bounded by a polynomial (n+2)^size, for every subject; holds '
-             'for 28 of the 50 regenerated patterns (every pattern applied to document data). For all 50 and for the attribute patterns '
+        text='Theorems: (DetCost) an expression in which every unbounded repetition is deterministic from one iteration to the next with one '
+             'character of look-ahead (sef, decided syntactically and proved sound against the reference semantics) has a number of ends '
+             '(with multiplicity: the size of the backtracking search) bounded by the polynomial (n+2)^deg for EVERY subject; the certificate '
+             'holds for ALL 50 patterns regenerated from the sources (vm_compute), so a source change that makes an iteration ambiguous breaks '
+             'the proof. (RegexCost) the older single-ended certificate for 28 patterns. For all 50 and for the attribute patterns '
              'built at run time: translation validated against the live re objects, an ambiguity search in the model (pump strings, '
              'capped search-tree size, constant growth ratio = exponential) confirmed by timing the live engine, and compile() timed on '
              'truncated-construct families.',
-        note='time itself is measured, never proved; 22 token patterns are outside the proved certificate (partial).',
+        note='time itself is measured, never proved: the theorem bounds the search size of the reference semantics, the link to seconds is measured.',
         technique='Coq polynomial bound on backtracking search of source-translated regexes + model-driven ambiguity search + timing'),
 })
 CLAIMED.update({
